@@ -2099,7 +2099,10 @@ static ASTNode *parse_primary(Stage1Parser *p) {
                     }
                     free(args);
                     if (func_name) free(func_name);
-                    if (func_expr) free_ast(func_expr);
+                    if (func_expr) {
+                        free_ast(func_expr);
+                        if (first_expr == func_expr) first_expr = NULL;  /* same node, already freed */
+                    }
                     if (module_alias) free(module_alias);
                     if (qualified_func_name) free(qualified_func_name);
                     if (first_expr && first_expr->type == AST_IDENTIFIER) {
